@@ -62,6 +62,21 @@ def header_order(chk, prog, rid, cfg=None):
             plain = [blk for blk in sorts if core.call_matches(it.term(blk), r"::sort$")]
             chk.ob(rid, it.path, "Headers::iter sorts with an explicit name-only key (no derived whole-Header ordering)", not plain,
                    "`sort()` uses Header's own ordering, which includes the value", cfg=cfg)
+    # every other method that edits the list (remove, ..) keeps the relative order of what stays: no swap_remove / swap / reverse /
+    # rotate / sort on the storage (the response parser calls `remove(TransferEncoding)` on every de-chunked response)
+    nmut = 0
+    for p2, b2 in sorted(prog.bodies.items()):
+        if not core.re.search(r"^humphrey::http::headers::Headers::\w+(::\{closure#\d+\})*$", p2) or p2.endswith("::iter"):
+            continue
+        for blk, t in b2.calls():
+            ty0 = (t.get("arg_tys") or [""])[0]
+            if not (ty0.startswith("&mut std::vec::Vec<") and "Header" in ty0) and not ("Header" in ty0 and ty0.startswith("&mut [")):
+                continue
+            nmut += 1
+            bad = core.call_matches(t, r"::(swap_remove|swap|reverse|rotate_left|rotate_right|sort|sort_by|sort_by_key|sort_unstable\w*|select_nth_unstable\w*|dedup\w*|drain|split_off|truncate)$")
+            chk.ob(rid, p2, f"{core.short(t['callee'])} on the header list keeps the remaining fields in arrival order", not bad,
+                   f"{t['callee']} moves or drops other fields: after it the remaining header lines are no longer in the order they were received", where=b2.where(blk), cfg=cfg)
+    chk.floor("edits of the header list in Headers methods", nmut, 2)
     # storage order: Headers::add / push only push
     for fn in ("humphrey::http::headers::Headers::add", "humphrey::http::headers::Headers::push"):
         b = prog.bodies.get(fn)
@@ -329,3 +344,33 @@ def start_line_exact(chk, prog, rid, cfg=None):
                            f"the {f} passes through {core.short(bad[0]) if bad else ''}: a request line with a bare LF, a trailing blank or an extra token is accepted instead of answered 400",
                            where=b.where(bi), cfg=cfg)
     chk.floor(f"request-line tokens [{cfg or 'A'}]", n, 3)
+
+
+def response_framing_by_headers(chk, prog, rid, cfg=None):
+    """The response parser decides how the body is framed from the headers alone (Transfer-Encoding, Content-Length) and accepts every
+    HTTP version token: no branch of Response::from_stream on the status (a 204 / 304 that carries Content-Length would lose its body and
+    leave it on the wire) and no comparison of the start line's version token with a literal (an `HTTP/1.0` upstream answer is valid)."""
+    fn = "humphrey::http::response::Response::from_stream"
+    fam = family(prog, fn)
+    chk.floor("Response::from_stream", len(fam), 1)
+    n = 0
+    for b in fam:
+        for s_ in range(len(b.blocks)):
+            t = b.term(s_)
+            if not t or t["k"] != "switch":
+                continue
+            info = core.switch_info(prog, b, s_)
+            n += 1
+            if info and info.get("kind") == "enum" and (info.get("src_ty") or "").lstrip("&").replace("mut ", "").strip() == "humphrey::http::status::StatusCode":
+                chk.ob(rid, b.path, "body framing does not depend on the status code", False,
+                       "the parser branches on the StatusCode: for some statuses the announced body is not read (it stays in the stream and the parsed response differs from the one sent)",
+                       where=b.where(s_), cfg=cfg)
+        for blk, t in b.calls():
+            if not core.call_matches(t, r"PartialEq.*::(eq|ne)$|::starts_with$|::ends_with$|eq_ignore_ascii_case$|::strip_prefix$|::contains$"):
+                continue
+            ds = [describe(prog, b, a) for a in t["args"]]
+            lits = [a[1] for a in ds if isinstance(a, tuple) and a and a[0] == "lit" and isinstance(a[1], str) and a[1].upper().startswith("HTTP/") and len(a[1]) > 5]
+            if lits:
+                chk.ob(rid, b.path, "every HTTP version token of the status line is accepted", False,
+                       f"the version token is compared with {lits}: a valid answer in another HTTP/1.x version is rejected", where=b.where(blk), cfg=cfg)
+    chk.ob(rid, fn, f"{n} branch(es) of the response parser examined: none on the status code or on a literal version token", True, cfg=cfg)
